@@ -127,16 +127,23 @@ fn case(rng: &mut Rng, pool: &Pool, rep: &mut Report, case_no: u64) {
         // the inherent method, or the same through the `RunNow` impl of the dispatcher (how a
         // dispatcher nested in another object is driven)
         let via_trait = rng.chance(1, 2);
-        let r = catch_unwind(AssertUnwindSafe(|| {
-            if via_trait {
-                shred::RunNow::setup(&mut disp, &mut world)
-            } else {
-                disp.setup(&mut world)
-            }
-        }));
-        history.push(format!("setup#{}{}", round, if via_trait { " (RunNow::setup)" } else { "" }));
+        let unwinding = rng.chance(1, 10);
+        let r: Result<(), String> = if unwinding {
+            // from a cleanup guard while the thread unwinds from an unrelated panic
+            during_unwind(|| disp.setup(&mut world))
+        } else {
+            catch_unwind(AssertUnwindSafe(|| {
+                if via_trait {
+                    shred::RunNow::setup(&mut disp, &mut world)
+                } else {
+                    disp.setup(&mut world)
+                }
+            }))
+            .map_err(|p| payload_str(&*p))
+        };
+        history.push(format!("setup#{}{}", round, if unwinding { " (from a destructor during unwinding)" } else if via_trait { " (RunNow::setup)" } else { "" }));
         if let Err(p) = r {
-            problems.push(("setup_panicked".into(), format!("setup panicked: {}", payload_str(&*p))));
+            problems.push(("setup_panicked".into(), format!("setup panicked: {}", p)));
             break;
         }
         let after = snapshot(&world);
@@ -218,17 +225,23 @@ fn case(rng: &mut Rng, pool: &Pool, rep: &mut Report, case_no: u64) {
     // ---- dispose hands every system to its hook exactly once ----
     if problems.iter().all(|p| p.0 != "setup_panicked") {
         let via_trait = rng.chance(1, 2);
-        let r = catch_unwind(AssertUnwindSafe(|| {
-            if via_trait {
-                let boxed: Box<shred::Dispatcher<'static, 'static>> = Box::new(disp);
-                shred::RunNow::dispose(boxed, &mut world)
-            } else {
-                disp.dispose(&mut world)
-            }
-        }));
-        history.push(if via_trait { "dispose (RunNow::dispose on the boxed dispatcher)".into() } else { "dispose".into() });
+        let unwinding = rng.chance(1, 6);
+        let r: Result<(), String> = if unwinding {
+            during_unwind(|| disp.dispose(&mut world))
+        } else {
+            catch_unwind(AssertUnwindSafe(|| {
+                if via_trait {
+                    let boxed: Box<shred::Dispatcher<'static, 'static>> = Box::new(disp);
+                    shred::RunNow::dispose(boxed, &mut world)
+                } else {
+                    disp.dispose(&mut world)
+                }
+            }))
+            .map_err(|p| payload_str(&*p))
+        };
+        history.push(if unwinding { "dispose (from a destructor during unwinding)".into() } else if via_trait { "dispose (RunNow::dispose on the boxed dispatcher)".into() } else { "dispose".into() });
         match r {
-            Err(p) => problems.push(("dispose_panicked".into(), format!("dispose panicked: {}", payload_str(&*p)))),
+            Err(p) => problems.push(("dispose_panicked".into(), format!("dispose panicked: {}", p))),
             Ok(()) => {
                 for (u, what) in &uids {
                     let n = ctx.disposes[*u as usize].load(SeqCst);
